@@ -9,6 +9,9 @@ build vcheck verif || exit 1
 build vcheck-purego "verif purego" || echo "setup: purego variant does not build (C20 will report it)"
 build vcheck-race verif -race || echo "setup: race variant does not build"
 (cd harness && GOARCH=386 CGO_ENABLED=0 go build -tags verif -o ../build/vcheck-386 ./cmd/vcheck) || echo "setup: 386 variant does not build"
+(cd harness && GOAMD64=v3 go build -tags verif -o ../build/vcheck-v3 ./cmd/vcheck) || echo "setup: GOAMD64=v3 variant does not build"
+build vcheck-purego-race "verif purego" -race || echo "setup: purego race variant does not build"
+(cd harness && go build -o ../build/standalone-powv1 ./cmd/standalone-powv1 && go build -o ../build/standalone-powv2 ./cmd/standalone-powv2) || echo "setup: standalone consumers do not build"
 ID=C13
 . scripts/sched-variant.sh || true
 (cd harness && go vet ./core ./ref/... >/dev/null 2>&1 || true)
